@@ -319,3 +319,108 @@ def canon(o):
     if isinstance(o, float):
         return ("float", struct.pack("!d", o).hex())
     return (type(o).__name__, o)
+
+
+# ---------------------------------------------------------------- Tub level (pb.py options -> negotiate -> Broker)
+
+class _Target(E.Referenceable):
+    def __init__(self):
+        self.hang = []
+
+    def remote_ping(self):
+        return 7
+
+    def remote_hang(self):
+        from twisted.internet import defer
+        d = defer.Deferred()
+        self.hang.append(d)
+        return d
+
+
+def tub_pair(K, T, blackhole_after=None, horizon=60.0):
+    """two real Tubs on the in-memory network, keepaliveTimeout=K / disconnectTimeout=T set through Tub.setOption
+    (seconds, float clock).  The network stops delivering anything at `blackhole_after` (None = healthy).
+    -> dict(brokers' options, pings seen on the wire, times the links were closed by a timeout, call results, leftovers)"""
+    set_mode(False)
+    net = E.Net()
+    (ida, pa), (idb, pb_) = E.pems_sorted(2)
+    res = dict(results=[], torn=[], wire_pings=0, wire_pongs=0)
+    with E.quiet():
+        A = E.make_tub(net, "a", pa)
+        B = E.make_tub(net, "b", pb_)
+        for tub in (A, B):
+            if K is not None:
+                tub.setOption("keepaliveTimeout", K)
+            else:
+                tub.keepaliveTimeout = None
+            if T is not None:
+                tub.setOption("disconnectTimeout", T)
+        target = _Target()
+        furl = B.registerReference(target)
+        got = []
+        A.getReference(furl).addBoth(got.append)
+        E.turn()
+        net.run()
+        E.turn()
+        if not got or not hasattr(got[0], "callRemote"):
+            restore()
+            return dict(error="no connection: %r" % (got,))
+        rr = got[0]
+        brokers = list(A.brokers.values()) + list(B.brokers.values())
+        res["opts"] = sorted((b.keepaliveTimeout, b.disconnectTimeout) for b in brokers)
+        for b in brokers:
+            orig = b.connectionTimedOut
+
+            def cto(b=b, orig=orig):
+                res["torn"].append((E.clock.seconds(), brokers.index(b)))
+                return orig()
+            b.connectionTimedOut = cto
+        res["deliv"] = {i: [] for i in range(len(brokers))}
+
+        def count(link, side, data):
+            res["wire_pings"] += data.count(PING)
+            res["wire_pongs"] += data.count(PONG)
+            # the Negotiation object stays the transport's protocol and forwards dataReceived to its Broker
+            dst = getattr(getattr(link.ends[1 - side].protocol, "dataReceived", None), "__self__", None)
+            if dst in brokers:
+                res["deliv"][brokers.index(dst)].append(E.clock.seconds())
+            return data
+        net.mangle = count
+        rr.callRemote("hang").addBoth(lambda r: res["results"].append((E.clock.seconds(), r)))
+        E.turn()
+        net.run()
+        dead = False
+        for _ in range(20000):
+            now = E.clock.seconds()
+            if now >= horizon:
+                break
+            if blackhole_after is not None and now >= blackhole_after and not dead:
+                dead = True
+            calls = [dc.getTime() for dc in E.clock.getDelayedCalls()]
+            nxt = min([c for c in calls] + [horizon])
+            if blackhole_after is not None and not dead:
+                nxt = min(nxt, blackhole_after)
+            E.clock.advance(max(0.0, nxt - now))
+            E.turn()
+            if dead:
+                # the network swallows data; a local close still reaches the local protocol
+                for l in net.links:
+                    l.q = {0: [x for x in l.q[0] if x is None and False], 1: [x for x in l.q[1] if x is None and False]}
+                    for e in list(l.pending_local_close):
+                        net.step((l, ("close", e)))
+            else:
+                net.run()
+        res["end"] = E.clock.seconds()
+        res["caller_dead"] = all(b.disconnected for b in brokers[:len(A.brokers)]) if A.brokers else True
+        res["nbrokers"] = len(brokers)
+        res["live"] = sum(1 for t in (A, B) for b in t.brokers.values() if not b.disconnected)
+        res["timers_left"] = sum(len(v) for b in brokers for v in timer_calls(b).values())
+        res["kinds"] = [(t, getattr(getattr(r, "type", None), "__name__", repr(r)[:40])) for (t, r) in res["results"]]
+        A.stopService()
+        B.stopService()
+        E.turn()
+        net.run()
+        E.turn()
+        res["timers_left_after_stop"] = sum(len(v) for b in brokers for v in timer_calls(b).values())
+    restore()
+    return res
